@@ -554,7 +554,14 @@ func c02Reject(c *Ctx) {
 		}},
 		{"prefix-not-ipv6", "parseIPPrefix", "IPv6 CIDR", func(r rejection) bool { return lastIs(r, atomCall(".Is6", false)) }},
 		{"prefix-4in6", "parseIPPrefix", "IPv6 CIDR (not IPv4-mapped)", func(r rejection) bool { return lastIs(r, atomCall(".Is4In6", true)) }},
-		{"prefix-single-ip", "parsePrefix", "no /128 prefix", func(r rejection) bool { return lastIs(r, atomCall(".IsSingleIP", true)) }},
+		{"prefix-single-ip", "parsePrefix", "no /128 prefix", func(r rejection) bool {
+			return lastIs(r, atomCall(".IsSingleIP", true)) || lastIs(r, func(a an.PathAtom) bool {
+				// equivalent formulation: Bits() == 128 (IPv6 is established by parseIPPrefix)
+				return cmpAtom(a, func(x, y *an.Expr, op token.Token) bool {
+					return isBits(x) && (isK(y, 128) && (op == token.EQL || op == token.GEQ) || isK(y, 127) && op == token.GTR)
+				})
+			})
+		}},
 		{"prefix-wildcard-length", "parsePrefix", "only ::/64 as prefix wildcard", func(r rejection) bool {
 			return r.has(atomCall(".IsUnspecified", true)) && lastIs(r, func(a an.PathAtom) bool {
 				return cmpAtom(a, func(x, y *an.Expr, op token.Token) bool { return isBits(x) && isK(y, 64) && op == token.NEQ })
